@@ -11,16 +11,19 @@ from mc import mspace as ms
 from mc.refmodel import Model, state_of
 from leuvenmapmatching.util.segment import Segment
 
+NAMED = ("26 named 4-12 node graphs (chains, cycles, star, complete graph, diamonds and an X-crossing whose roads re-converge, a fork "
+         "with exact ties, two road islands, two feeder roads, two approach roads, a far fan-out)")
 ID = "C01"
 TITLE = "Emitting-only matching returns a maximum-probability walk"
 MANIFEST = {
     "text": "Every directed graph on 2-3 placed nodes (two position alphabets: dyadic GRID with exact ties and observations on "
-            "roads/nodes, GENERIC in general position), every 4-node graph with <= 3 edges (thorough <= 6) and six named 4-5 node "
-            "graphs, every trace of length <= 3 over a 4-point observation alphabet (<= 2 on the 4-node family in the quick tier), "
+            "roads/nodes, GENERIC in general position), every 4-node graph with <= 3 edges (thorough <= 6) and " + NAMED + ", every trace of length <= 3 over a 4-point observation alphabet (<= 2 on the 4-node family in the quick tier), "
             "3 matcher families x 6 cut-off sets x 2 noise settings x integer/string labels is matched by the real code and compared "
             "with an explicit search over ALL admissible walks of the product graph: empty result iff no start candidate, index = "
             "longest explainable prefix, best probability = maximum over all walks, the returned walk is admissible and attains it, "
-            "the best live lattice entry has the same value.  Finite-radius configurations are additionally run on SqliteMap.",
+            "the best live lattice entry has the same value.  Finite-radius configurations are additionally run on SqliteMap; "
+            "node-and-edge states additionally with the package logger at DEBUG; and every named graph and GENERIC 3-node graph additionally "
+            "on a matcher object that was used for another trace before.",
     "note": "Trusted: mc/refmodel.py (documented model, no dynamic programming), mc/refgeom.py; the model is cross-validated by "
             "re-scoring one optimal walk per case through the implementation's own first()/next() scoring. Known finding D2 "
             "(in-memory start candidates with a finite initial radius) is recognised by evaluating the reference a second time with "
@@ -49,7 +52,7 @@ def configs():
 
 
 def space(tier):
-    return {"graphs": "all on 2-3 nodes x {GENERIC, GRID}; 4 nodes with <= %d edges; 12 named 4-5 node graphs" % (3 if tier == "quick" else 6),
+    return {"graphs": "all on 2-3 nodes x {GENERIC, GRID}; 4 nodes with <= %d edges; 26 named 4-12 node graphs" % (3 if tier == "quick" else 6),
             "trace_length": "<= 3 (n<=3 and named), <= %d (4-node family)" % (2 if tier == "quick" else 3),
             "observation_alphabet": {k: v[:4] for k, v in al.OBS.items()}, "families": ms.FAMS, "cutoffs": ms.CUTS, "noise": NOISE,
             "labels": ["int", "str (n<=3)"], "backends": ["inmem", "sqlite (finite-radius configurations)"]}
